@@ -76,7 +76,7 @@ func blockedInLock() bool {
 	buf := make([]byte, 1<<20)
 	buf = buf[:runtime.Stack(buf, true)]
 	for _, g := range strings.Split(string(buf), "\n\n") {
-		if strings.Contains(g, "c05.exec.func") && strings.Contains(g, "sync.(*Mutex).Lock") {
+		if strings.Contains(g, "sync.(*Mutex).Lock") && (strings.Contains(g, "c05.exec.func") || strings.Contains(g, "c05.(*ctxT).behind")) {
 			return true
 		}
 	}
@@ -90,7 +90,7 @@ func behindCall(entry string, next []xml.Token) (call, bool) {
 		return call{}, false
 	}
 	switch entry {
-	case "send", "tw", "msg":
+	case "send", "tw", "msg", "reply":
 		return call{entry: entry, form: "reader", toks: next}, true
 	case "enc":
 		return call{entry: entry, form: "marshaler", toks: next}, true
@@ -168,7 +168,35 @@ func (c *ctxT) behind(cfg cfgT, mode string, park, k int, toks []xml.Token, cl c
 	}
 	// the second call: it has to queue behind the holder
 	s2c := make(chan string, 1)
-	go func() { s2c <- exec(rs.S, cl) }()
+	if cl.entry == "reply" {
+		// a handler's reply: Serve hands the handler a writer that takes the output lock at
+		// its first EncodeToken
+		n := 0
+		go rs.S.Serve(xmpp.HandlerFunc(func(t xmlstream.TokenReadEncoder, start *xml.StartElement) error {
+			n++
+			if n > 1 {
+				return nil
+			}
+			var err error
+			p := common.Recover(func() {
+				for _, tok := range cl.toks {
+					if err = t.EncodeToken(xml.CopyToken(tok)); err != nil {
+						break
+					}
+				}
+			})
+			if p != "" {
+				s2c <- "PANIC"
+			} else {
+				s2c <- classify(err)
+			}
+			return nil
+		}))
+		defer rs.In.Close()
+		go rs.Feed([]byte(`<message xmlns="` + cfg.ns + `" id="trigger"/>`))
+	} else {
+		go func() { s2c <- exec(rs.S, cl) }()
+	}
 	queued := false
 	s2 := ""
 	deadline := time.Now().Add(400 * time.Millisecond)
@@ -255,7 +283,7 @@ wait:
 	}
 }
 
-var behindEntries = []string{"send", "sendel", "enc", "encel", "tw", "msg"}
+var behindEntries = []string{"send", "sendel", "enc", "encel", "tw", "msg", "reply"}
 
 func (c *ctxT) behindCorpus(cfg cfgT) {
 	msg := el("", "message", at("type", "chat", "id", "first"), el("", "body", nil, xml.CharData("hi"))...)
